@@ -511,4 +511,141 @@ Proof.
       destruct low as [|a [|b rest']]; [cbn in Hlen; lia|cbn in Hlen; lia|].
       unfold STV_step.pick_elim. unfold mbind. rewrite Htie. reflexivity.
 Qed.
+(* ====================== F: the transfer law of every round of the run ====================== *)
+
+Notation round_weights := (round_weights cand ceqb).
+
+Theorem step_weights : forall cfg t (p0 p : profile) prev n (s s' : mstate) np st,
+  step_ctx p0 p prev ->
+  stv_step cfg t p0 n p prev s = inl ((np, st), s') ->
+  (s_transfer cfg = TRandom -> script_ok s /\ is_integral t = true) ->
+  round_weights cfg t n p np st s s'.
+Proof.
+  intros cfg t p0 p prev n s s' np st Hctx Hstep Hrand.
+  assert (Hscr : s_transfer cfg = TRandom -> script_ok s) by (intros E; apply (Hrand E)).
+  destruct (stv_step_ok_inv cand ceqb ceqb_spec cfg t p0 p prev Hctx n s s' np st Hscr Hstep)
+    as [[Hsome _]|[(Hnone & Hcnt & _ & Hd)|(Hnone & Hcnt & _)]].
+  - left. assert (Hsome' : exists c, reaches t p c) by exact Hsome.
+    split; [exact Hsome'|]. split.
+    + intros Hk r' Hne.
+      exact (round_weights_elect cand ceqb ceqb_spec cfg t p0 p prev n s s' np st Hctx Hstep r' Hk Hsome' Hne).
+    + intros Hk. destruct (Hrand Hk) as [Hs Hint].
+      exact (round_weights_random cfg t p0 p prev n s s' np st Hctx Hstep Hk Hs Hint Hsome').
+  - right. left. split; [exact Hnone|]. split; [exact Hcnt|].
+    rewrite (dr_np _ _ _ _ Hd). reflexivity.
+  - right. right. split; [exact Hnone|]. split; [exact Hcnt|].
+    exact (round_weights_elim cand ceqb ceqb_spec cfg t p0 p prev n s s' np st Hctx Hstep Hscr Hnone Hcnt).
+Qed.
+
+Theorem run_weights : forall cfg (p : profile) (s s' : mstate) sts,
+  wf_stv0 p -> (s_transfer cfg = TRandom -> script_ok s) ->
+  run_stv cfg p s = inl (sts, s') ->
+  exists t ps ss,
+    stv_init cfg p = inl t /\ stv_trace cfg t p sts ps ss /\
+    nth_error ps 0 = Some p /\ nth_error ss 0 = Some s /\ last ss s = s' /\
+    forall r pr pr' st' sa sb,
+      nth_error ps r = Some pr -> nth_error ps (S r) = Some pr' ->
+      nth_error sts (S r) = Some st' ->
+      nth_error ss r = Some sa -> nth_error ss (S r) = Some sb ->
+      round_weights cfg t (count_elected (firstn (S r) sts)) pr pr' st' sa sb.
+Proof.
+  intros cfg p s s' sts Hwf Hscr H.
+  destruct (run_trace_inv cfg p s s' sts Hwf Hscr H)
+    as [t [ps [ss [s0 [Ht [Htr [Hp0 [Hs0 [Hlast [H0 [Hst0 Hall]]]]]]]]]]].
+  exists t, ps, ss. split; [exact Ht|]. split; [exact Htr|]. split; [exact Hp0|].
+  split; [exact Hs0|]. split; [exact Hlast|].
+  pose proof Htr as [Hlp [Hls [Hso Hstep]]].
+  intros r pr pr' st' sa sb Hp Hp' Hr' Hsa Hsb.
+  pose proof (nth_error_lt _ _ _ Hp) as Hlt.
+  destruct (nth_error_ex sts r ltac:(lia)) as [st Hr].
+  destruct (Hall r pr st sa Hp Hr Hsa) as [Hinv [Hctx Hscra]].
+  pose proof (Hstep r pr st sa pr' st' sb Hp Hr Hsa Hp' Hr' Hsb) as Hs.
+  apply (step_weights cfg t p pr st _ sa sb pr' st' Hctx Hs).
+  intros E. split; [apply Hscra; exact E|]. exact (inv_t_int _ _ _ _ _ _ _ _ Hinv).
+Qed.
+
+(* ====================== G: a failing Droop / fractional run fails at such a round ====================== *)
+
+Notation stv_loop := (stv_loop cand ceqb).
+
+(* the error of a failing loop is raised by a round that starts from a state satisfying the
+   invariant with at most m elected *)
+Lemma droop_loop_error_round : forall cfg t N (p0 : profile),
+  s_transfer cfg <> TFullWeight -> N < inject_Z (s_m cfg + 1) * t -> 0 < t ->
+  forall fuel (p : profile) sts (s : mstate) e,
+  stv_inv cfg t N p0 p sts -> (s_transfer cfg = TRandom -> script_ok s) ->
+  (count_elected sts <= s_m cfg)%Z ->
+  stv_loop fuel cfg t p0 p sts s = inr e ->
+  e = EFuel \/
+  exists (p' : profile) prev older (s1 : mstate),
+    stv_inv cfg t N p0 p' (prev :: older) /\ (s_transfer cfg = TRandom -> script_ok s1) /\
+    (count_elected (prev :: older) <= s_m cfg)%Z /\
+    stv_step cfg t p0 (count_elected (prev :: older)) p' prev s1 = inr e.
+Proof.
+  intros cfg t N p0 Hk HN Ht.
+  induction fuel as [|fuel IH]; intros p sts s e Hinv Hscr Hle H;
+    rewrite (stv_loop_unfold cand ceqb) in H.
+  - destruct (Z.eqb (count_elected sts) (s_m cfg)); [discriminate|]. injection H as <-. left. reflexivity.
+  - destruct (Z.eqb (count_elected sts) (s_m cfg)); [discriminate|].
+    pose proof Hinv as Hinv0.
+    destruct Hinv as [(prev & older & -> & Hctx) _ _ _ _ _].
+    destruct (stv_step cfg t p0 (count_elected (prev :: older)) p prev s) as [[[np st] s1]|e'] eqn:Es.
+    + destruct (stv_inv_step cand ceqb ceqb_spec cfg t N p0 p prev older s s1 np st Hinv0 Hscr Es)
+        as [Hinv' Hsuf].
+      apply (IH np (st :: prev :: older) s1 e Hinv').
+      * intros E. apply (script_ok_suffix cand s s1 Hsuf). apply Hscr. exact E.
+      * apply (droop_step_count cand ceqb ceqb_spec cfg t N p0 Hk HN Ht p prev older s s1 np st
+                 Hinv0 Hscr Hle Es).
+      * exact H.
+    + injection H as <-. right. exists p, prev, older, s.
+      split; [exact Hinv0|]. split; [exact Hscr|]. split; [exact Hle|exact Es].
+Qed.
+
+(* Droop quota, fractional transfer, valid-or-empty profile: a failing run either was refused at
+   construction (m out of range) or reached a round — satisfying the invariant — that is an
+   unbreakable tie in the exact sense of [step_error_iff] *)
+Theorem droop_run_error_exact : forall cfg (p : profile) (s : mstate) e,
+  wf_stv0 p -> s_quota cfg = QDroop -> s_transfer cfg = TFractional ->
+  run_stv cfg p s = inr e ->
+  (e = EValue /\ ~ (1 <= s_m cfg <= Z.of_nat (length (cands p)))%Z) \/
+  exists t (pr : profile) prev older (s1 : mstate),
+    stv_init cfg p = inl t /\ 1 <= t /\
+    stv_inv cfg t (total_wt (ballots p)) p pr (prev :: older) /\
+    (count_elected (prev :: older) <= s_m cfg)%Z /\
+    (((exists c, reaches t pr c) /\ s_simul cfg = false /\
+      exists g rest, remaining prev = g :: rest /\ (2 <= length g)%nat /\
+        ((s_tiebreak cfg = None /\ e = EValue) \/
+         (exists kind, s_tiebreak cfg = Some kind /\ tiebreak_set g (Some pr) kind s1 = inr e)))
+     \/
+     ((forall c, In c (cands pr) -> tally c (ballots pr) < t) /\
+      Z.of_nat (length (cands pr)) <> (s_m cfg - count_elected (prev :: older))%Z /\
+      exists pre low, remaining prev = pre ++ [low] /\ (2 <= length low)%nat /\
+        tiebreak_set low (Some p) TBFirstPlace s1 = inr e)).
+Proof.
+  intros cfg p s e Hwf Hq Ek H.
+  assert (Hscr : s_transfer cfg = TRandom -> script_ok s) by (intros E; congruence).
+  assert (Hk : s_transfer cfg <> TFullWeight) by (rewrite Ek; discriminate).
+  pose proof (run_stv_no_fuel cand ceqb ceqb_spec cfg p s Hwf Hscr) as Hnf.
+  rewrite (run_stv_unfold cand ceqb) in H, Hnf.
+  destruct (stv_init cfg p) as [t|e0] eqn:Ei.
+  - right. destruct (initial_state_ok cand ceqb ceqb_spec p Hwf) as [s0 E0]. rewrite E0 in H, Hnf.
+    pose proof (stv_inv_init cand ceqb cfg p t s0 Hwf Ei E0) as Hinv.
+    pose proof (threshold_value cand cfg p t Ei (total_wt_nonneg cand p Hwf)) as [Hm Hqv].
+    cbv zeta in Hm, Hqv. rewrite Hq in Hqv. destruct Hqv as (_ & HN & H1).
+    assert (Hle : (count_elected [s0] <= s_m cfg)%Z).
+    { destruct (initial_state_inv cand ceqb p s0 E0) as (_ & Hel & _).
+      rewrite (count_elected_all cand). unfold STVSpec.all_elected, STVSpec.elected_in. cbn [map concat].
+      rewrite Hel. cbn. lia. }
+    assert (Ht : 0 < t) by lra.
+    destruct (droop_loop_error_round cfg t _ p Hk HN Ht _ p [s0] s e Hinv Hscr Hle H)
+      as [->|(pr & prev & older & s1 & Hinv1 & _ & Hle1 & Hs1)].
+    + exfalso. apply Hnf. exact H.
+    + exists t, pr, prev, older, s1. split; [reflexivity|]. split; [exact H1|].
+      split; [exact Hinv1|]. split; [exact Hle1|].
+      exact (proj1 (step_error_iff cfg t _ p pr prev older s1 e Hinv1 Ek Ht Hle1) Hs1).
+  - left. injection H as <-. destruct (stv_init_err cand cfg p e0 Hwf Ei) as [-> [Hm|Hb]].
+    + split; [reflexivity|exact Hm].
+    + rewrite Hq in Hb. discriminate.
+Qed.
+
 End Run.
